@@ -156,7 +156,10 @@ def run(kind, seed, n_workers, conf, criterion_kwargs, tuner_conf=None):
             # reconstruct the worker side for the TunerLoop trace
             emitted[t] = emitted.get(t, 0) + 1
             r["run"], r["idx"] = runs[t], emitted[t]
-            tl_ev.append({"a": "W_Emit", "t": int(t)})
+            if pre_emitted.get(t, 0) > 0:
+                pre_emitted[t] -= 1         # already logged when busy_trial_ids() revealed that the process had ended
+            else:
+                tl_ev.append({"a": "W_Emit", "t": int(t)})
         for t, (_, s_) in st.items():
             if s_ == Status.completed and t not in exited:
                 tl_ev.append({"a": "W_Exit", "t": int(t)})
@@ -164,6 +167,27 @@ def run(kind, seed, n_workers, conf, criterion_kwargs, tuner_conf=None):
         sim_ev.append({"a": "Fetch", "ids": sorted(int(t) for t in trial_ids), "res": out, "now": now()})
         tl_ev.append({"a": "Fetch", "n": len(res), "dead": [], "vals": [[int(t), int(round(r["m"])), 0] for t, r in res]})
         return st, res
+
+    pre_emitted: Dict[int, int] = {}
+    o_busy = be.busy_trial_ids
+
+    def busy_trial_ids():
+        """start_jobs_without_delay = False.  The call may reveal that a process has ended before any poll reported it: its
+        remaining reports (queued in the back-end) and its exit are logged now, in that order."""
+        r = o_busy()
+        busy = {int(t) for t, _ in r}
+        for t in sorted(mode):
+            if (mode[t] == "running" and t not in busy and t not in exited
+                    and be._trial_dict[t].status in (Status.completed, Status.failed)):
+                n = len(be._next_results_to_fetch.get(t, []))
+                for _ in range(n):
+                    tl_ev.append({"a": "W_Emit", "t": int(t)})
+                pre_emitted[t] = pre_emitted.get(t, 0) + n
+                tl_ev.append({"a": "W_Exit", "t": int(t)})
+                exited.add(t)
+        tl_ev.append({"a": "Busy", "S": sorted(busy)})
+        return r
+    be.busy_trial_ids = busy_trial_ids
 
     def pause_trial(trial_id, result=None):
         tl_ev.append({"a": "PauseTrial", "t": trial_id})
